@@ -3,7 +3,7 @@
    non-vacuity examples. *)
 From Coq Require Import List Bool Arith NArith Permutation.
 Import ListNotations.
-From C20 Require Import Model CaseDefs ProofsFilter ProofsPipe ProofsConc.
+From C20 Require Import Model ModelLex CaseDefs ProofsFilter ProofsPipe ProofsConc ProofsLex.
 
 (* thm:C20_projection_exact — for EVERY stored object (any number of fields, duplicate keys
    included), every non-empty or empty field list (present, absent, all, none, repeated names)
@@ -165,6 +165,52 @@ Example C20_except_dup_keys_v0_refuted :
     /\ In (1, 11) out /\ memb 1 fields = true.
 Proof. exact except_dup_keys_v0_refuted. Qed.
 
+(* ---------------------------------------------------------------- lexical level (ModelLex.v) *)
+(* C20_pipe_extraction above speaks about tokens. On the TEXT: for every search expression written as a
+   sequence of lexical items (plain bytes, double- or single-quoted values with any escapes, raw strings,
+   `#` comment lines - each of which may contain any number of `|` bytes) and every pipe text p, the scan of
+   `e|p` finds the first top-level `|` token exactly at the `|` written after e ... *)
+Theorem C20_pipe_start_written :
+  forall e p, items_ok e = true ->
+    pipe_start (render_items e ++ 124%N :: p) = Some (length (render_items e)).
+Proof. exact pipe_start_written. Qed.
+Print Assumptions C20_pipe_start_written.
+
+(* ... hence the fields filter extracted from `e|p` is the one extracted from `* |p`, namely the token-level
+   extraction applied to the tokens of `|p` (for ANY lexer of the pipe section [lexp]): a `|` byte inside a
+   quoted value or a comment never starts the pipe section *)
+Theorem C20_pipe_found_lexically :
+  forall (lexp : bytes -> list ptok) e p, items_ok e = true ->
+    extract_text lexp true (render_items e ++ 124%N :: p)
+      = extract_text lexp true ([42%N; 32%N] ++ 124%N :: p)
+    /\ extract_text lexp true (render_items e ++ 124%N :: p) = try_parse_filter true (lexp (124%N :: p)).
+Proof. exact (fun lexp e p H => conj (pipe_found_lexically_star lexp e p H) (pipe_found_lexically lexp true e p H)). Qed.
+Print Assumptions C20_pipe_found_lexically.
+
+(* a query whose only `|` bytes are inside quoted values or comments has no pipe section: no filter *)
+Theorem C20_no_top_level_bar_no_filter :
+  forall (lexp : bytes -> list ptok) e, items_ok e = true ->
+    extract_text lexp true (render_items e) = Ok no_filter.
+Proof. exact no_top_level_bar_no_filter. Qed.
+Print Assumptions C20_no_top_level_bar_no_filter.
+
+(* the variant that cuts the text at the first `|` BYTE (seeded change C20-m12) is refuted by
+   message:DQa|bDQ | fields level  (DQ = double quote): the byte cut is at offset 10, inside the quoted value,
+   the pipe section starts at offset 14; whenever the pipe section lexes to `| fields level` and the cut
+   tail `|bDQ | fields level` to bar, name, lone quote, bar, fields, name, the text-level extraction gives
+   allow-list [level] and the byte cut gives NO filter (the client would receive full documents).
+   The harness replays this very query on the real Ingestor.Search (class page-search-lex, fixed). *)
+Theorem C20_pipe_bytecut_refuted :
+  items_ok e_m12 = true /\ render_items e_m12 ++ 124%N :: p_m12 = q_m12
+  /\ index_byte 124 q_m12 = Some 10 /\ pipe_start q_m12 = Some 14
+  /\ forall lexp level b,
+       lexp (124%N :: p_m12) = [TBar; TFields; TName level] ->
+       lexp (skipn 10 q_m12) = [TBar; TName b; TBad; TBar; TFields; TName level] ->
+       extract_text lexp true q_m12 = Ok (mkPF [level] true)
+       /\ extract_bytecut lexp q_m12 = Ok no_filter.
+Proof. exact bytecut_refuted. Qed.
+Print Assumptions C20_pipe_bytecut_refuted.
+
 (* ---------------------------------------------------------------- non-vacuity *)
 (* the repaired filter on the same document *)
 Example C20_dup_keys_now_removed :
@@ -218,3 +264,27 @@ Example C20_no_length_bound :
   filter_fields [(4000, 1); (2, 2)] [4000] true = Ok [(4000, 1)]
   /\ filter_fields [(4000, 1); (2, 2)] [4000] false = Ok [(2, 2)].
 Proof. split; vm_compute; reflexivity. Qed.
+
+(* the hypothesis items_ok of the lexical theorems holds for an expression with every kind of item:
+     svc:DQa\DQ|bDQ and x:'it\'s|' or y:`r|s` # c|d NL z:DQ\\DQ        (DQ = double quote, NL = newline)
+   i.e. an escaped quote next to `|`, an escaped backslash right before the closing quote, a raw string,
+   a comment line; and the pipe is found behind it *)
+Example C20_nonvacuous_lex :
+  let e := map IPlain [115;118;99;58]%N
+           ++ [IQuoted 34 [QC 97; QEsc 34; QC 124; QC 98]; IPlain 32; IPlain 120; IPlain 58;
+               IQuoted 39 [QC 105; QC 116; QEsc 39; QC 115; QC 124]; IPlain 32; IPlain 121; IPlain 58;
+               IRaw [114; 124; 115]; IPlain 32; IComment [32; 99; 124; 100]; IPlain 122; IPlain 58;
+               IQuoted 34 [QEsc 92]]%N in
+  items_ok e = true
+  /\ pipe_start (render_items e ++ 124%N :: [102]%N) = Some 43
+  /\ index_byte 124 (render_items e ++ 124%N :: [102]%N) = Some 8.
+Proof. cbv zeta. split; [reflexivity|]. split; vm_compute; reflexivity. Qed.
+
+(* outside the hypothesis: an expression that ENDS inside a comment (no newline) or inside an open quote whose
+   partner is in the pipe text swallows the written `|` - and the real lexer does the same (class pipe-text-unclosed) *)
+Example C20_lex_unclosed_swallows_pipe :
+  pipe_start ([97; 58; 98; 32; 35; 99]%N ++ 124%N :: [32; 102]%N) = None
+  /\ pipe_start ([97; 58; 39; 98]%N ++ 124%N :: [32; 39; 102]%N) = None
+  (* but an open quote WITHOUT partner is a one-byte token: the `|` behind it is top-level *)
+  /\ pipe_start ([97; 58; 39; 98]%N ++ 124%N :: [32; 102]%N) = Some 4.
+Proof. repeat split; vm_compute; reflexivity. Qed.
